@@ -551,8 +551,14 @@ fn execute(c: &Case15, cause: Cause, point: u32) -> Result<Done, Outcome> {
     }
 
     // 3. the broker side has noticed
-    if rig.net.clients[0].conn_result.borrow().is_none() {
-        return Err(fail("broker-side:connection-still-running", rig.detail("the victim's Connection::run() has not returned")));
+    match (&cause, rig.net.clients[0].conn_result.borrow().clone()) {
+        (_, None) => return Err(fail("broker-side:connection-still-running", rig.detail("the victim's Connection::run() has not returned"))),
+        // a clean stop of the client is a clean close for the broker side as well (a broker that
+        // shuts down itself is covered by the run-result check above)
+        (Cause::ShutdownRequest | Cause::LastHandleDropped | Cause::BrokerShutdownConnection, Some(Err(e))) => {
+            return Err(fail(format!("broker-side:clean-stop-seen-as-{}", variant(&format!("{:?}", e))), rig.detail(&format!("after clean cause {:?} the victim's Connection::run() ended with {:?}", cause, e))));
+        }
+        _ => {}
     }
 
     // 4. operations started afterwards complete at once, with an error or end-of-stream
